@@ -1,5 +1,6 @@
 """C05 — Mutex: mutual exclusion and no stranded waiter (structural clauses)."""
 from lib import *
+import witness
 from props import shared
 from props.shared import *
 
@@ -8,6 +9,7 @@ EXPLANATION = ("R-EXIT acquire evidence (MutexGuard::new only behind CAS-success
                "handshake on the cancel arm (waiter and waker side), R-MO on cnt, R-API the only dereferences of Mutex.data")
 NOT_DECIDED = "freedom from stranded waiters over all interleavings; eventual return of lock(); fairness"
 CONFIGS_QUICK = ["default"]
+NEEDS_TARGET = True
 
 M = "may::sync::mutex::Mutex"
 G = "may::sync::mutex::MutexGuard"
@@ -112,3 +114,5 @@ def check(ctx):
         ctx.ob("R-API", M + ".data", "accessors", not extra,
                "Mutex.data is reached only through the guard's Deref/DerefMut, get_mut(&mut self), into_inner(self), new: %s" % sorted(users) if not extra else
                "Mutex.data is accessed outside the guard: %s" % sorted(extra), None)
+    if ctx.cfg == "default":
+        witness.run_witness(ctx, "c05_mutex", ctx.prog.extract_info["target"])
